@@ -33,7 +33,9 @@ def merge_copyright_lines(copyright_lines: set[str]) -> set[str]:
     # pylint: disable=too-many-locals
     # TODO: Rewrite this function. It's a bit of a mess.
     copyright_in = []
-    for line in copyright_lines:
+    # In a fixed order: where two prefixes are equally frequent, the winner must
+    # not depend on the order in which a set yields its items.
+    for line in sorted(copyright_lines):
         match = find_copyright_match(line)
         if match is not None:
             copyright_in.append(
